@@ -218,6 +218,31 @@ pub fn run_c04(tier: &str, sink: &Sink) -> DOut {
             }
         }
     });
+    // bit-boundary family: components 2^k - 1, 2^k, 2^k + 1 against their carry partners
+    // (1.0.2^k vs 1.1.0, 1.2^k.p vs 2.0.p, ...): all ordered pairs, built and parsed
+    let mut bits: Vec<Version> = vec![ver(1, 0, 0, ""), ver(1, 1, 0, ""), ver(2, 0, 0, ""), ver(1, 0, 7, ""), ver(2, 0, 7, ""), ver(0, 0, 0, ""), ver(1, 1, 0, "a"), ver(2, 0, 0, "a"), ver(0, 0, 0, "a")];
+    let ks: Vec<u32> = if tier == "thorough" { (2..=49).collect() } else { vec![2, 7, 8, 15, 16, 20, 21, 24, 28, 31, 32, 33, 40, 48, 49] };
+    for k in ks {
+        for d in [0u64, 1, 2] {
+            let p = (1u64 << k) - 1 + d;
+            if p > MAX_SAFE {
+                continue;
+            }
+            bits.push(ver(1, 0, p, ""));
+            bits.push(ver(1, p, 7, ""));
+            bits.push(ver(p, 0, 0, ""));
+            bits.push(ver(p, 0, 0, "a"));
+            bits.push(ver(1, p, p, ""));
+        }
+    }
+    let nb = bits.len();
+    let bits_pairs = AtomicU64::new(0);
+    (0..nb).into_par_iter().for_each(|i| {
+        for j in 0..nb {
+            bits_pairs.fetch_add(1, AO::Relaxed);
+            check_c04_pair(&bits[i], &bits[j], sink);
+        }
+    });
     // transitivity + totality on all triples (implementation's own relation)
     let le: Vec<Vec<bool>> = (0..n).map(|i| (0..n).map(|j| u[i].cmp(&u[j]) != Ordering::Greater).collect()).collect();
     let cls: Vec<Vec<Ordering>> = (0..n).map(|i| (0..n).map(|j| rcmp(&u[i], &u[j])).collect()).collect();
@@ -269,8 +294,9 @@ pub fn run_c04(tier: &str, sink: &Sink) -> DOut {
     });
     let mut counters = BTreeMap::new();
     counters.insert("versions".into(), n as u64);
-    counters.insert("ordered_pairs".into(), pairs.load(AO::Relaxed) + parsed_pairs.load(AO::Relaxed));
+    counters.insert("ordered_pairs".into(), pairs.load(AO::Relaxed) + parsed_pairs.load(AO::Relaxed) + bits_pairs.load(AO::Relaxed));
     counters.insert("ordered_pairs_of_parsed_texts".into(), parsed_pairs.load(AO::Relaxed));
+    counters.insert("bit_boundary_pairs".into(), bits_pairs.load(AO::Relaxed));
     counters.insert("triples".into(), triples.load(AO::Relaxed));
     counters.insert("triples_with_three_distinct_classes".into(), distinct3.load(AO::Relaxed));
     counters.insert("lists".into(), lists.load(AO::Relaxed));
@@ -664,7 +690,33 @@ pub fn run_c14(tier: &str, sink: &Sink) -> DOut {
             check_c14(text, r, &list, sink);
         }
     });
+    // long lists (an implementation may switch algorithm at some length): lengths around powers of
+    // two up to 1025, every rotation (at most 64) of a base sequence rich in same-triple prereleases
+    let mut base: Vec<Version> = pool.clone();
+    for t in ["a.1", "a.2", "b", "rc.1", "rc.2", "0"] {
+        base.push(ver(2, 0, 0, t));
+        base.push(ver(1, 2, 3, t));
+        base.push(ver(0, 1, 0, t));
+    }
+    for i in 0..20u64 {
+        base.push(ver(1, i, 0, ""));
+    }
+    let lens = [5usize, 8, 9, 16, 17, 31, 32, 33, 34, 63, 64, 65, 127, 128, 129, 257, 1025];
+    let long_evals = AtomicU64::new(0);
+    lens.par_iter().for_each(|&len| {
+        let seq: Vec<Version> = (0..len).map(|i| base[(i * 7 + i / base.len()) % base.len()].clone()).collect();
+        for rot in 0..len.min(64) {
+            let mut list = seq.clone();
+            list.rotate_left(rot * len / len.min(64));
+            for (text, r) in &ranges {
+                long_evals.fetch_add(1, AO::Relaxed);
+                check_c14(text, r, &list, sink);
+            }
+        }
+    });
+    evals.fetch_add(long_evals.load(AO::Relaxed), AO::Relaxed);
     let mut counters = BTreeMap::new();
+    counters.insert("long_list_evaluations".into(), long_evals.load(AO::Relaxed));
     counters.insert("pool".into(), m as u64);
     counters.insert("ranges".into(), ranges.len() as u64);
     counters.insert("ranges_not_parsing".into(), (C14_RANGES.len() - ranges.len()) as u64);
